@@ -1,33 +1,69 @@
 (* Libfuncs/CStmt.v -- statements of the completeness theorems (C06, CASM layer): with HONEST hint
    answers (VmRun.honest, transcribed from execute_core_hint) the executable VM never fails on
    in-range arguments and returns the mathematical result.  Frame: VmRun.init_st / init_mem
-   (ap = fp = AP0, range-check segment at RC0).  Also the boolean checkers used by the complete
-   finite sweeps of the 8-bit types.  Model file: no proofs. *)
+   (ap = fp = AP0, range-check segment at RC0, program loaded at 0).  Also the boolean checker used
+   by the complete finite sweeps of the 8-bit types.  Model file: no proofs. *)
 From Vmx Require Export VmRun.
 From Spec Require Export Int.
+From Libfuncs Require Export Stmt.
 
-Definition zrange (n : nat) : list Z := map Z.of_nat (seq 0 n).
+(* the run on [args] succeeds and the cells below the final ap hold exactly [outs] *)
+Definition run_outputs (c : code) (entry : Z) (args outs : list Z) : Prop :=
+  outputs (run_honest c entry 200 args) (List.length outs) = Some (map Some outs).
 
-(* u*_overflowing_add / sub *)
-Definition uarith_post (op : Z -> Z -> Z -> ures) (w a b : Z) (r : res (st * pmem)) : Prop :=
-  exists s' m', r = Ok (s', m') /\
-    lookup (ap s' - 3) m' = Some (RC0 + 1) /\
-    match op w a b with
-    | UOk v => lookup (ap s' - 2) m' = Some 0 /\ lookup (ap s' - 1) m' = Some v
-    | UErr v => lookup (ap s' - 2) m' = Some 1 /\ lookup (ap s' - 1) m' = Some v
-    end.
-Definition uarith_complete (op : Z -> Z -> Z -> ures) (w : Z) (c : code) (entry : Z) : Prop :=
-  forall a b, in_u w a -> in_u w b -> uarith_post op w a b (run_honest c entry 64 [RC0; a; b]).
-
-Definition opt_eqb (o : option Z) (v : Z) : bool :=
-  match o with Some x => x =? v | None => false end.
-Definition uarith_chk (op : Z -> Z -> Z -> ures) (w : Z) (c : code) (entry : Z) (a b : Z) : bool :=
-  match run_honest c entry 64 [RC0; a; b] with
-  | Ok (s', m') =>
-      opt_eqb (lookup (ap s' - 3) m') (RC0 + 1) &&
-      match op w a b with
-      | UOk v => opt_eqb (lookup (ap s' - 2) m') 0 && opt_eqb (lookup (ap s' - 1) m') v
-      | UErr v => opt_eqb (lookup (ap s' - 2) m') 1 && opt_eqb (lookup (ap s' - 1) m') v
-      end
-  | Err _ => false
+Fixpoint outs_eqb (l : list (option Z)) (o : list Z) : bool :=
+  match l, o with
+  | [], [] => true
+  | Some x :: r, y :: s => (x =? y) && outs_eqb r s
+  | _, _ => false
   end.
+Definition run_chk (c : code) (entry : Z) (args outs : list Z) : bool :=
+  match outputs (run_honest c entry 200 args) (List.length outs) with
+  | Some l => outs_eqb l outs
+  | None => false
+  end.
+
+(* a specification maps the mathematical operands to (argument cells, expected result cells) *)
+Definition spec1 := Z -> (list Z * list Z).
+Definition spec2 := Z -> Z -> (list Z * list Z).
+(* operands range over [lo, hi); [nz]: the second operand is NonZero *)
+Definition complete1 (lo hi : Z) (sp : spec1) (c : code) (entry : Z) : Prop :=
+  forall a, lo <= a < hi -> run_outputs c entry (fst (sp a)) (snd (sp a)).
+Definition complete2 (lo hi : Z) (nz : bool) (sp : spec2) (c : code) (entry : Z) : Prop :=
+  forall a b, lo <= a < hi -> lo <= b < hi -> (nz = true -> b <> 0) ->
+  run_outputs c entry (fst (sp a b)) (snd (sp a b)).
+
+Definition zrange (lo : Z) (n : nat) : list Z := map (fun k => lo + Z.of_nat k) (seq 0 n).
+Definition sweep1 (lo : Z) (n : nat) (sp : spec1) (c : code) (entry : Z) : bool :=
+  forallb (fun a => run_chk c entry (fst (sp a)) (snd (sp a))) (zrange lo n).
+Definition sweep2 (lo : Z) (n : nat) (nz : bool) (sp : spec2) (c : code) (entry : Z) : bool :=
+  forallb (fun a => forallb (fun b => (nz && (b =? 0)) || run_chk c entry (fst (sp a b)) (snd (sp a b)))
+                            (zrange lo n)) (zrange lo n).
+
+(* ---- the specifications of the families (same meaning as the soundness statements of Stmt.v) ---- *)
+Definition b2z (b : bool) : Z := if b then 1 else 0.
+Definition sp_uarith (op : Z -> Z -> Z -> ures) (w : Z) : spec2 := fun a b =>
+  ([RC0; a; b], RC0 + 1 :: match op w a b with UOk v => [0; v] | UErr v => [1; v] end).
+Definition sp_eq : spec2 := fun a b => ([a mod P; b mod P], [b2z (a =? b)]).
+Definition sp_is_zero : spec1 := fun a => ([a], if a =? 0 then [1; 0] else [0; a]).
+Definition sp_ident : spec1 := fun a => ([a mod P], [a mod P]).
+Definition sp_wide_mul : spec2 := fun a b => ([a mod P; b mod P], [(a * b) mod P]).
+Definition sp_divmod (n : Z) : spec2 := fun a b => ([RC0; a; b], [RC0 + n; a / b; a mod b]).
+Definition sp_sqrt : spec1 := fun a => ([RC0; a], [RC0 + 4; Z.sqrt a]).
+Definition sp_iarith (f : Z -> Z -> Z) (w n_in n_out : Z) : spec2 := fun a b =>
+  ([RC0; a mod P; b mod P],
+   [RC0 + (if ifits w (f a b) then n_in else n_out); (iwrap w (f a b)) mod P;
+    b2z (negb (ifits w (f a b)))]).
+
+Definition uarith_complete (op : Z -> Z -> Z -> ures) (w : Z) := complete2 0 (2 ^ w) false (sp_uarith op w).
+Definition ueq_complete (w : Z) := complete2 0 (2 ^ w) false sp_eq.
+Definition ieq_complete (w : Z) := complete2 (- 2 ^ (w - 1)) (2 ^ (w - 1)) false sp_eq.
+Definition is_zero_complete (w : Z) := complete1 0 (2 ^ w) sp_is_zero.
+Definition uident_complete (w : Z) := complete1 0 (2 ^ w) sp_ident.
+Definition iident_complete (w : Z) := complete1 (- 2 ^ (w - 1)) (2 ^ (w - 1)) sp_ident.
+Definition uwide_mul_complete (w : Z) := complete2 0 (2 ^ w) false sp_wide_mul.
+Definition iwide_mul_complete (w : Z) := complete2 (- 2 ^ (w - 1)) (2 ^ (w - 1)) false sp_wide_mul.
+Definition udivmod_complete (w n : Z) := complete2 0 (2 ^ w) true (sp_divmod n).
+Definition usqrt_complete (w : Z) := complete1 0 (2 ^ w) sp_sqrt.
+Definition iarith_complete (f : Z -> Z -> Z) (w n_in n_out : Z) :=
+  complete2 (- 2 ^ (w - 1)) (2 ^ (w - 1)) false (sp_iarith f w n_in n_out).
